@@ -36,7 +36,7 @@ Lemma tm_request_nil q r mt maxre s : C14refuse.tm_request [] q r mt maxre s = C
 Proof. reflexivity. Qed.
 
 Lemma crashed_nocrash o : crashed o = negb (nocrash o).
-Proof. unfold crashed, nocrash. induction o as [|x o IH]; [reflexivity|]. cbn [existsb forallb]. rewrite IH. destruct x; try reflexivity. destruct e; reflexivity. Qed.
+Proof. unfold crashed, nocrash. induction o as [|x o IH]; [reflexivity|]. cbn [existsb forallb]. rewrite IH. destruct x; reflexivity. Qed.
 
 Lemma dispatch_message_nil r mt code mid tok s : Inv s ->
   C14refuse.dispatch_message [] r mt code mid tok s = C14.dispatch_message r mt code mid tok s.
@@ -322,22 +322,16 @@ Theorem general_fifo a b c es r :
   subm r (concat (snd (rrun (init a b c, []) es))) = left r (concat (snd (rrun (init a b c, []) es))) ++ backlog_of r (fst (fst (rrun (init a b c, []) es))).
 Proof. apply (rrun_inv_fifo es (init a b c) [] []); [apply inv_init|reflexivity|reflexivity]. Qed.
 
-Theorem general_nocrash a b c es e : e <> TypeError -> ~ In (Crash e) (concat (snd (rrun (init a b c, []) es))).
-Proof. intros He H. assert (N : nocrash (concat (snd (rrun (init a b c, []) es))) = true) by (apply (rrun_inv_fifo es (init a b c) [] []); [apply inv_init|reflexivity|reflexivity]).
-  exact (nocrash_in _ e N He H). Qed.
+Theorem general_nocrash a b c es e : ~ In (Crash e) (concat (snd (rrun (init a b c, []) es))).
+Proof. intros H. assert (N : nocrash (concat (snd (rrun (init a b c, []) es))) = true) by (apply (rrun_inv_fifo es (init a b c) [] []); [apply inv_init|reflexivity|reflexivity]).
+  exact (nocrash_in _ e N H). Qed.
 
 Theorem general_step l s e : Inv s ->
   let s' := fst (step_ev l s e) in let o := snd (step_ev l s e) in
-  Inv s' /\ (forall r, backlog_of r s ++ subm r o = left r o ++ backlog_of r s') /\ (forall x, x <> TypeError -> ~ In (Crash x) o).
+  Inv s' /\ (forall r, backlog_of r s ++ subm r o = left r o ++ backlog_of r s') /\ (forall x, ~ In (Crash x) o).
 Proof. intros HI. destruct (step_ev_trans l s e HI) as (A & B & C). split; [exact A|]. split; [exact B|].
-  intros x Hx. exact (nocrash_in _ x C Hx). Qed.
+  intros x. exact (nocrash_in _ x C). Qed.
 
 Theorem refusal_is_transport_error l what r s : refuses l r = true ->
   send_via_transport l what r s = (fst (step s (TransportError r)), refused_ghost what ++ snd (step s (TransportError r))).
 Proof. intros H. unfold send_via_transport. rewrite H. cbn [step]. destruct (dispatch_error r s); reflexivity. Qed.
-
-(* C14-R3 (open): a responder's non-last response (a notification) whose datagram the transport refuses — dispatch_error runs the
-   stoppers inside on_event, the pipe ends, and Pipe._add_event then evaluates _any_interest() on `False` *)
-Theorem pipe_typeerror_refuted :
-  In (Crash TypeError) (concat (snd (rrun (init 0 0 [], []) [Ev (Serve 1 0 7 0); Refuse 0 true; Ev (Respond 10 1 false 1)]))).
-Proof. vm_compute. auto 10. Qed.
